@@ -22,6 +22,18 @@ pub(crate) enum AnyArena {
     Lockfree(LockfreeArena),
 }
 
+#[cfg(lasso_verif)]
+impl AnyArena {
+    /// Read-only view of the arena's layout
+    pub(crate) fn verif_audit(&self) -> crate::verif::ArenaAudit {
+        match self {
+            Self::Arena(arena) => arena.verif_audit(),
+            #[cfg(feature = "multi-threaded")]
+            Self::Lockfree(arena) => arena.verif_audit(),
+        }
+    }
+}
+
 impl Debug for AnyArena {
     fn fmt(&self, f: &mut fmt::Formatter<'_>) -> fmt::Result {
         match self {
